@@ -1,6 +1,7 @@
 (* C07 - Copybook to schema: every entry appears once, in place, and none is lost.
    Only the property theorems, each closed by an exact lemma of Proofs/StructureP.v,
-   Proofs/StructureFullP.v (when structure raises) or Proofs/SentenceValueP.v (text layer, finding 5).
+   Proofs/StructureFullP.v (when structure raises), Proofs/SentenceValueP.v (text layer, finding 5),
+   Proofs/OneDigitLevelP.v (text layer, finding 6) or Proofs/RedefinesCaseP.v (finding 7).
 
    [structure l] is the model of cobol_parser.structure run on the sentences l after clause_dict
    (Model/Structure.v: DDE naming with the FILLER counter, the stack walk with two-character string
@@ -14,7 +15,7 @@
 From Coq Require Import NArith List.
 Import ListNotations.
 Require Import SR.Base.Res SR.Spec.Dde SR.Model.Structure SR.Proofs.StructureP SR.Proofs.StructureFullP.
-Require SR.Model.RefFormat SR.Proofs.SentenceValueP.
+Require SR.Model.RefFormat SR.Proofs.SentenceValueP SR.Proofs.OneDigitLevelP SR.Proofs.RedefinesCaseP.
 
 (* Every kept entry exactly once and in source order; the parent of each is the nearest preceding
    kept entry with a strictly smaller level number; the trees start exactly at the entries that
@@ -159,6 +160,39 @@ Theorem C07_sentence_cut_at_period_ws :
     SR.Model.RefFormat.dde_sentences [[d1; d2; 32%N] ++ (c :: a) ++ 46%N :: w :: b] = ([d1; d2], c :: a) :: more.
 Proof. exact SentenceValueP.sentence_cut. Qed.
 Print Assumptions C07_sentence_cut_at_period_ws.
+
+(* Known finding 6 (refutes "none is lost"), on the text-layer model.  The copybook
+          1 R.
+             5 A PIC X.
+             10 B PIC X.
+   (level numbers 01 and 05 written with one digit, as COBOL allows) comes back as the single entry
+   10 B PIC X; with 01 and 05 written out all three come back; the first two lines alone yield nothing. *)
+Theorem C07_refuted_6 :
+  SentenceValueP.entry_texts OneDigitLevelP.witness6 = Ok [([49; 48], [66; 32; 80; 73; 67; 32; 88])]%N
+  /\ SentenceValueP.entry_texts [OneDigitLevelP.w6_line1'; OneDigitLevelP.w6_line2'; OneDigitLevelP.w6_line3]
+     = Ok [([48; 49], [82]); ([48; 53], [65; 32; 80; 73; 67; 32; 88]); ([49; 48], [66; 32; 80; 73; 67; 32; 88])]%N
+  /\ SR.Model.RefFormat.dde_sentences [skipn 7 OneDigitLevelP.w6_line1; skipn 7 OneDigitLevelP.w6_line2] = [].
+Proof. exact OneDigitLevelP.refuted_6. Qed.
+Print Assumptions C07_refuted_6.
+
+(* ... and in general: a text in which no two adjacent characters are digits yields no entry at all,
+   whatever one-digit level numbers it holds. *)
+Theorem C07_no_digit_pair_no_sentence : forall lines : list SR.Model.RefFormat.line,
+  OneDigitLevelP.digit_pair (concat lines) = false -> SR.Model.RefFormat.dde_sentences lines = [].
+Proof. exact OneDigitLevelP.no_pair_no_sentence. Qed.
+Print Assumptions C07_no_digit_pair_no_sentence.
+
+(* Known finding 7 (refutes the clause that a well-formed copybook never ends in an internal error):
+   01 R. 05 fld-a PIC X. 05 B REDEFINES FLD-A PIC X.  COBOL words are not case-sensitive: with names
+   and targets in upper case the REDEFINES clause names exactly one earlier sibling (up_spec); structure
+   compares the spelling and raises ValueError; with the clause spelled like the declaration it returns. *)
+Theorem C07_refuted_7 :
+  Forall (fun e => two_digits (elv e) = true) RedefinesCaseP.witness7
+  /\ redefines_ok (RedefinesCaseP.up_spec RedefinesCaseP.witness7) = true
+  /\ structure RedefinesCaseP.witness7 = Err ValueError
+  /\ (exists f, structure RedefinesCaseP.witness7_same_case = Ok f).
+Proof. exact RedefinesCaseP.refuted_7. Qed.
+Print Assumptions C07_refuted_7.
 
 (* Non-vacuity: 01 R. 05 A PIC. 05 (unnamed) PIC. 10 (unnamed) PIC. 88 B. 03 B REDEFINES A PIC. 01 (unnamed) PIC.
    structure returns; preorder, parents and roots as the specification says; FILLER-1, FILLER-2, then
